@@ -1,6 +1,7 @@
 import TunnoxModel.Proofs.C16
 import TunnoxModel.Proofs.C02
 import TunnoxModel.Proofs.C16Start
+import TunnoxModel.Proofs.C16Bg
 /-!
 # C16 — shutdown paths run exactly once and leave nothing running
 
@@ -175,6 +176,24 @@ context (schedule: Start's CAS, the closer's four steps, the rest of Start). -/
 theorem C16_start_casFirst_witness :
     holdsU (uObs (uFinal .casFirst 1 [0, 1, 1, 1, 1, 0, 0, 0])) = false := by decide
 
+/-! ## Close against a background loop that is mid-tick -/
+
+/-- **Every interleaving** of the storage cleaner's loop (`select`, tick body under the storage
+lock, re-reading the stop channel; any number `k` of pending ticks, a ready tick always preferred)
+with `n ≥ 1` `Close` calls (dispose latch, `StopCleanup` under the storage lock) while pending I/O
+holds the storage lock until it is unblocked: when everything has returned the cleaner's
+goroutine is gone and the storage is closed. -/
+theorem C16_background (k n : Nat) (hn : 1 ≤ n) (s : Schedule) :
+    holdsG (gObs (gFinal .keep k n s)) = true :=
+  holdsG_final k n hn s
+
+/-- The rejected `StopCleanup` that installs a fresh stop channel after closing the old one: a
+cleaner that is inside its tick body while `StopCleanup` runs comes back to a `select` on the new,
+never-closed channel (schedule: cleaner enters a tick, closer takes the latch, reader unblocks,
+`StopCleanup`, cleaner finishes the tick). -/
+theorem C16_background_replace_witness :
+    holdsG (gObs (gFinal .replace 1 1 [1, 1, 2, 2, 0, 2, 1, 1, 1])) = false := by decide
+
 /-! ## Traffic report -/
 
 /-- **Totals reported exactly once, every schedule.** Any list of rounds (bytes counted, then any
@@ -278,6 +297,8 @@ example : holdsU (uObs (uFinal .setCtxFirst 0 [])) = true := by decide
 example : uObs (uFinal .setCtxFirst 1 [0, 0, 0, 1, 1, 1, 1, 0]) = ⟨3, 1, true, 0, true, true⟩ := by decide
 example : uObs (uFinal .setCtxFirst 1 [1, 1, 1, 1]) = ⟨3, 1, false, 0, false, false⟩ := by decide
 example : uObs (uFinal .casFirst 1 [0, 1, 1, 1, 1, 0, 0, 0]) = ⟨3, 1, true, 2, false, false⟩ := by decide
+example : holdsG (gObs (gFinal .keep 1 1 [1, 1, 2, 2, 0, 2, 1, 1, 1])) = true := by decide
+example : (gFinal .replace 1 1 [1, 1, 2, 2, 0, 2, 1, 1, 1]).ths[1]? = some ⟨GPc.wait, 0, 1⟩ := by decide
 example : (bFinal 3 [0, 1, 2, 2, 1, 0]).sh.sc = 2 ∧ (bFinal 3 [0, 1, 2, 2, 1, 0]).sh.cleanups = 1 := by decide
 
 end Tunnox.C16
